@@ -6,15 +6,18 @@
 package main
 
 import (
+	"github.com/Shopify/sarama"
 	"verif/harness/cli"
 	"verif/harness/cons"
 	"verif/harness/grp"
 	"verif/harness/hlib"
+	"verif/harness/life"
 	"verif/harness/pipe"
 )
 
 func main() {
 	run := hlib.StartParallel("C12", 14)
+	life.IDMark = sarama.VerifIDMark // lifecycle hook events are recorded (consumer, group, client scenarios)
 	pipe.RunAll(run, "C12", []string{"C12:", "C01:"}, 0)
 	cons.RunAll(run, "C12", []string{"C12:"}, 0)
 	grp.RunAll(run, "C12", []string{"C12:"}, 0)
